@@ -17,7 +17,8 @@ def client_hash(cookie, client_nonce, server_nonce):
 def escape_path(path):
     """QuotedString escaping as Tor does for COOKIEFILE (esc_for_log style): backslash, quote, non-printables as octal"""
     out = []
-    for ch in path:
+    # Tor escapes the BYTES of the file name (a non-ASCII character becomes one octal escape per UTF-8 byte)
+    for ch in path.encode('utf-8').decode('latin-1'):
         o = ord(ch)
         if ch == '\\':
             out.append('\\\\')
